@@ -309,7 +309,10 @@ func (sc *Scheduler) Signal(
 		defer func() {
 			done <- true
 		}()
-		for g.IsRunning() {
+		// A signalled step is marked canceled at once, but its process
+		// may ignore the signal: wait until the steps have really ended,
+		// so that the caller can still escalate.
+		for g.IsRunning() || g.isStopping() {
 			time.Sleep(sc.pause)
 		}
 	}
